@@ -1,11 +1,242 @@
-/- Driver for C17 (stub — not built yet) -/
+/-
+Driver for C17: replays an implementation transcript (harness/src/c17.rs) through the model
+`Cfg` (Model/Cfg.lean: compartmentalize, update_from, Props, typed slots, include/node) and the
+abstract specification `CfgSpec` (Spec/Cfg.lean: segment matcher, typed-slot rule) — the
+definitions the theorems in Props/C17.lean are about.
+-/
+import Desverif.Model.Cfg
+import Desverif.Spec.Cfg
 import Driver.Common
 namespace Driver.C17
-open Driver
+open Driver Cfg
+
+def parseKey (s : String) : Key := if s = "~" || s = "" then [] else s.splitOn "."
+
+def showKey (k : Key) : String := ".".intercalate k
+
+def renStr (s : String) : String := if s.isEmpty then "~" else s
+
+partial def renVal : Val → String
+  | .scalar s => renStr s
+  | .map es => "{" ++ ",".intercalate (es.map fun e => renStr (showKey e.1) ++ ":" ++ renVal e.2) ++ "}"
+
+def renSlot : Slot → String
+  | .none => "!"
+  | .yaml v => renVal v
+  | .some (.str s) => renStr s
+  | .some (.u64 n) => s!"#{n}"
+
+def renProps (ps : Props) : String :=
+  if ps.isEmpty then "-" else
+  let arr := (ps.map fun e => (showKey e.1, renSlot e.2)).toArray.qsort (fun a b => a.1 < b.1)
+  ";".intercalate (arr.toList.map fun e => renStr e.1 ++ "=" ++ e.2)
+
+/-- `k=v` tokens → flat configuration; `none` if a token is malformed -/
+def parseEntries (toks : List String) : Option Flat :=
+  toks.mapM fun t =>
+    match t.splitOn "=" with
+    | [k, v] => some (parseKey k, v)
+    | _ => none
+
+/-- observed `k=v;k=v` list → (name, rendered value) -/
+def parseObs (s : String) : Option (List (Key × String)) :=
+  if s = "-" then some [] else
+  (s.splitOn ";").mapM fun t =>
+    match t.splitOn "=" with
+    | [k, v] => some (parseKey k, v)
+    | _ => none
+
+def parseTy (s : String) : Option Ty :=
+  if s = "str" then some .str else if s = "u64" then some .u64 else none
+
+def parseTAns (s : String) : Option TAns :=
+  if s = "invalid" then some .invalid
+  else if s = "other" then some .other
+  else if s = "none" then some .none
+  else if s = "ok" then some .ok
+  else if s.startsWith "s:" then some (.val (.str (let r := (s.drop 2).toString; if r = "~" then "" else r)))
+  else if s.startsWith "n:" then (s.drop 2).toString.toNat?.map fun n => .val (.u64 n)
+  else none
+
+def showTAns : TAns → String
+  | .invalid => "invalid" | .other => "other" | .none => "none" | .ok => "ok"
+  | .val (.str s) => "s:" ++ renStr s | .val (.u64 n) => s!"n:{n}"
+
+/-- statistics for the non-triviality rule -/
+structure Stats where
+  obs : Nat := 0      -- property-set observations checked against the specification
+  keys : Nat := 0     -- specified property names in them
+  wild : Nat := 0     -- matching entries that use the wildcard
+  near : Nat := 0     -- non-matching entries that differ from the module path only in a segment
+                      -- sharing a textual prefix with the module's segment
+  typed : Nat := 0
+  mism : Nat := 0     -- typed accesses answered `invalid`
+  f11b : Nat := 0     -- observations on configurations of the open class F11b
+
+def nearMiss : List Seg → Key → Bool
+  | [], _ => false
+  | _ :: _, [] => false
+  | s :: rest, h :: k =>
+    if h = s || h = ANY then nearMiss rest k
+    else (s.startsWith h || h.startsWith s)
+
+def countStats (st : Stats) (cs : List Flat) (p : List Seg) : Stats :=
+  let es := cs.flatMap id
+  { st with
+    obs := st.obs + 1
+    keys := st.keys + (cs.flatMap fun c => CfgSpec.specKeys c p).length
+    wild := st.wild + (es.filter fun e => (CfgSpec.matchName p e.1).isSome && hasAny e.1).length
+    near := st.near + (es.filter fun e => nearMiss p e.1).length }
+
+def tagOf (cs : List Flat) : String :=
+  if cs.any fun c => decide (CfgSpec.Clash c) then "F11b" else "none"
+
+/-- spec check of one observed property set; `skip` = names touched by typed accesses -/
+def specCheck (cs : List Flat) (p : List Seg) (obs : List (Key × String)) (skip : List Key) : Bool :=
+  let cs' := cs.map fun c => c.filter fun e =>
+    match CfgSpec.matchName p e.1 with
+    | some n => !skip.contains n
+    | none => true
+  CfgSpec.accepts cs' p (obs.filter fun o => !skip.contains o.1)
+
+structure St where
+  sim : Sim := {}
+  cfgs : List Flat := []                         -- successfully included, in order
+  touched : List (List Seg × Key) := []          -- (module, name) accessed through typed handles
+  fixed : List ((List Seg × Key) × Ty) := []     -- abstract typed-slot state
+  stats : Stats := {}
+
+def runCase (c : Case) : String := Id.run do
+  let h := words c.header
+  let id := (h[1]?).getD "?"
+  let mut s : St := {}
+  let mut i := 0
+  for line in c.body do
+    if line.startsWith "end" then
+      if line != "end" then return s!"fail {id} op={i} kind=reject clause=drop-panic impl={line}"
+      continue
+    i := i + 1
+    let (lhs, rhs) := splitArrow line
+    let l := words lhs
+    let ans := rhs.trimAscii.toString
+    let bad := s!"fail {id} op={i} kind=badline detail=[{line}]"
+    match l with
+    | "cfg" :: toks =>
+      match parseEntries toks with
+      | none => return bad
+      | some flat =>
+        if ans = "err" then
+          -- serde_yml rejected the text (duplicate keys): `include_cfg` ignores it, so does the model
+          if (flat.map (·.1)).Nodup then
+            return s!"fail {id} op={i} kind=diverge line=[{line}] detail=yaml-text-rejected"
+          continue
+        if ans != "ok" then
+          return s!"fail {id} op={i} kind=reject clause=include-panics tag={tagOf [flat]} line=[{line}] impl={ans}"
+        match s.sim.includeCfg flat with
+        | .error e => return s!"fail {id} op={i} kind=diverge line=[{line}] model=error:{repr e} impl={ans}"
+        | .ok sim' => s := { s with sim := sim', cfgs := s.cfgs ++ [flat] }
+    | ["node", p] =>
+      let path := parseKey p
+      let (sim', a) := s.sim.node path
+      let ma := if a = .ok then "ok" else "panic"
+      if ans != ma then
+        -- creating a node is specified to succeed unless it is a duplicate / lacks its parent
+        let kind := if (a = .ok) then "reject clause=node-panics" else "diverge"
+        return s!"fail {id} op={i} kind={kind} tag={tagOf s.cfgs} line=[{line}] model={repr a} impl={ans}"
+      s := { s with sim := sim' }
+    | ["props", p] =>
+      let path := parseKey p
+      match s.sim.props path with
+      | none =>
+        if ans != "nomod" then return s!"fail {id} op={i} kind=diverge line=[{line}] model=nomod impl={ans}"
+      | some ps =>
+        let m := renProps ps
+        match parseObs ans with
+        | none => return s!"fail {id} op={i} kind=reject clause=props-panics tag={tagOf s.cfgs} line=[{line}] model={m} impl={ans}"
+        | some obs =>
+          let dom := s.cfgs.all fun c => decide (CfgSpec.WF c)
+          if dom then
+            let skip := (s.touched.filter (·.1 = path)).map (·.2)
+            s := { s with stats := countStats s.stats s.cfgs path }
+            if tagOf s.cfgs = "F11b" then s := { s with stats := { s.stats with f11b := s.stats.f11b + 1 } }
+            if !specCheck s.cfgs path obs skip then
+              let want := showKey <$> (s.cfgs.flatMap fun c => CfgSpec.specKeys c path)
+              return s!"fail {id} op={i} kind=reject clause=props tag={tagOf s.cfgs} line=[{line}] spec-names={want} model={m} impl={ans}"
+          if ans != m then
+            return s!"fail {id} op={i} kind=diverge tag={tagOf s.cfgs} line=[{line}] model={m} impl={ans}"
+    | "cap" :: p :: toks =>
+      let path := parseKey p
+      match parseEntries toks with
+      | none => return bad
+      | some flat =>
+        if ans = "err" then
+          if (flat.map (·.1)).Nodup then
+            return s!"fail {id} op={i} kind=diverge line=[{line}] detail=yaml-text-rejected"
+          continue
+        let m := match captureInto flat path with
+          | .ok ps => renProps ps
+          | .error e => s!"error:{repr e}"
+        match parseObs ans with
+        | none => return s!"fail {id} op={i} kind=reject clause=capture-panics tag={tagOf [flat]} line=[{line}] model={m} impl={ans}"
+        | some obs =>
+          if decide (CfgSpec.WF flat) then
+            s := { s with stats := countStats s.stats [flat] path }
+            if tagOf [flat] = "F11b" then s := { s with stats := { s.stats with f11b := s.stats.f11b + 1 } }
+            if !CfgSpec.accepts [flat] path obs then
+              let want := showKey <$> CfgSpec.specKeys flat path
+              return s!"fail {id} op={i} kind=reject clause=capture tag={tagOf [flat]} line=[{line}] spec-names={want} model={m} impl={ans}"
+          if ans != m then
+            return s!"fail {id} op={i} kind=diverge tag={tagOf [flat]} line=[{line}] model={m} impl={ans}"
+    | op :: p :: key :: ty :: rest =>
+      let path := parseKey p
+      let k := parseKey key
+      match parseTy ty with
+      | none => return bad
+      | some t =>
+        let top : Option TOp :=
+          if op = "read" then some .read
+          else if op = "readd" then some .readd
+          else if op = "write" then
+            match t, rest with
+            | .str, [v] => some (.write (.str v))
+            | .u64, [v] => v.toNat?.map fun n => .write (.u64 n)
+            | _, _ => none
+          else none
+        match top with
+        | none => return bad
+        | some top =>
+          match s.sim.props path with
+          | none =>
+            if ans != "nomod" then return s!"fail {id} op={i} kind=diverge line=[{line}] model=nomod impl={ans}"
+          | some ps =>
+            let (ps', ma) := ps.typedOp k t top
+            match parseTAns ans with
+            | none => return s!"fail {id} op={i} kind=reject clause=typed-panics line=[{line}] model={showTAns ma} impl={ans}"
+            | some ia =>
+              -- abstract typed-slot rule
+              let fx := (s.fixed.find? (·.1 = (path, k))).map (·.2)
+              let (acc, fx') := CfgSpec.typedAccept fx t ia
+              if !acc then
+                return s!"fail {id} op={i} kind=reject clause=typed-slot line=[{line}] held={repr fx} model={showTAns ma} impl={ans}"
+              if ia != ma then
+                return s!"fail {id} op={i} kind=diverge line=[{line}] model={showTAns ma} impl={ans}"
+              let fixed' := match fx' with
+                | some t' => ((path, k), t') :: s.fixed.filter (·.1 != (path, k))
+                | none => s.fixed.filter (·.1 != (path, k))
+              s := { s with
+                sim := s.sim.setProps path ps'
+                touched := (path, k) :: s.touched
+                fixed := fixed'
+                stats := { s.stats with typed := s.stats.typed + 1,
+                                        mism := s.stats.mism + (if ia = .invalid then 1 else 0) } }
+    | _ => return bad
+  let st := s.stats
+  let nt := st.obs > 0 && st.wild > 0 && st.near > 0 && st.keys > 0
+  return s!"ok {id} nt={if nt then 1 else 0} ops={i} obs={st.obs} keys={st.keys} wild={st.wild} near={st.near} typed={st.typed} mismatch={st.mism} f11b={st.f11b}"
 
 def main (stdin : IO.FS.Stream) : IO Unit := do
   let cases ← readCases stdin
   for c in cases do
-    IO.println s!"fail {(words c.header)[1]?.getD "?"} op=0 kind=unimplemented"
+    IO.println (runCase c)
 
 end Driver.C17
